@@ -33,7 +33,8 @@ def gen_commands(rnd, n, idx):
         for nm in names:
             r = rnd.random()
             if r < 0.25:
-                params.append((nm, rnd.choice(INJECTED), "injected", False))
+                # an injected parameter the body does not use is often bound by the wildcard pattern: `_: State<'_, Db>`
+                params.append(("_" if rnd.random() < 0.3 else nm, rnd.choice(INJECTED), "injected", False))
             elif r < 0.45:
                 params.append((nm, rnd.choice(CHANNELS), "channel", False))
             else:
@@ -54,7 +55,7 @@ def project_src(cmds):
            "pub struct AppState { pub n: i32 }\n\n", rg.struct_src("Msg", [("text", "String")])]
     for c in cmds:
         generic = "<R: Runtime>" if any("<R>" in p[1] for p in c["params"]) else ""
-        ps = ", ".join("%s%s: %s" % ("mut " if m else "", p[0], p[1]) for p, m in zip(c["params"], c["mut"]))
+        ps = ", ".join("%s%s: %s" % ("mut " if m and p[0] != "_" else "", p[0], p[1]) for p, m in zip(c["params"], c["mut"]))
         attr = "#[tauri::command]"
         if c.get("macro_case"):
             attr = ['#[tauri::command(rename_all = "%s")]', '#[tauri::command(async, rename_all = "%s")]', '#[tauri::command(rename_all = "%s", root = "crate")]'][c["macro_form"]] % c["macro_case"]
